@@ -57,7 +57,7 @@ func (s *Sim) submitAllowed(path string, user string, groups []string) bool {
 		return false
 	}
 	for _, qp := range ancestors(path) {
-		if q := s.conf.Find(qp); q != nil {
+		if q := s.specOf(qp); q != nil {
 			if aclAllows(q.SubmitACL, user, groups) || aclAllows(q.AdminACL, user, groups) {
 				return true
 			}
@@ -313,7 +313,7 @@ func (s *Sim) oracleC17(op Op, evs []SIEvent) {
 // adminAllowed: the admin ACL of the queue or of an ancestor admits the user.
 func (s *Sim) adminAllowed(path string, user string, groups []string) bool {
 	for _, qp := range ancestors(path) {
-		if q := s.conf.Find(qp); q != nil && aclAllows(q.AdminACL, user, groups) {
+		if q := s.specOf(qp); q != nil && aclAllows(q.AdminACL, user, groups) {
 			return true
 		}
 	}
@@ -346,4 +346,13 @@ func (s *Sim) checkACLState(when string) {
 			}
 		}
 	}
+}
+
+// specOf: the configured form of a queue: from the active configuration, or, for a queue that left the configuration
+// and is draining until it is empty, the form it had when it left (it keeps its ACLs until it is removed).
+func (s *Sim) specOf(path string) *QSpec {
+	if q := s.conf.Find(path); q != nil {
+		return q
+	}
+	return s.ghosts[path]
 }
